@@ -93,8 +93,14 @@ IntTok(cp) ==
       nd  == Len(cp) + 1 - z
       mag == IF nd > 9 THEN Huge ELSE DigitsVal(cp, z, Len(cp) + 1)
   IN [v |-> IF neg THEN 0 - mag ELSE mag, nd |-> nd]
-\* beyond the 64-bit range (19 digits can already overflow): left open
-IntTooBig(cp) == IntTok(cp).nd > 18
+\* beyond the 64-bit range: left open (a syntax error, or clamped)
+IntTooBig(cp) ==
+  LET neg == cp[1] = 45
+      a   == IF neg THEN 2 ELSE 1
+      z   == SkipZeros(cp, a, Len(cp) + 1)
+      ds  == SubSeq(cp, z, Len(cp))
+      lim == IF neg THEN <<57,50,50,51,51,55,50,48,51,54,56,53,52,55,55,53,56,48,56>> ELSE <<57,50,50,51,51,55,50,48,51,54,56,53,52,55,55,53,56,48,55>>
+  IN Len(ds) > 19 \/ (Len(ds) = 19 /\ SeqLess(lim, ds))
 
 \* --------------------------------------------------------------- parser
 RECURSIVE Expr(_, _, _, _)
